@@ -1,6 +1,7 @@
 package main
 
 import (
+	"crypto/sha256"
 	"runtime/debug"
 	"encoding/json"
 	"fmt"
@@ -390,6 +391,35 @@ func runCheck(o CheckOpts) (code int) {
 		}
 		lines = append(lines, l)
 	}
+	// Thorough tier, in addition to the deductive obligations: every replay
+	// adapter of a function under contract is run on this tree with its whole
+	// scenario list and its oracle taken from the property text. This is a
+	// BOUNDED cross-check of the contracts themselves (a contract that encodes a
+	// wrong expectation would agree with wrong code); it is labelled bounded in
+	// the evidence and never counted as proved.
+	if o.Tier == "thorough" {
+		seenAd := map[string]bool{}
+		for _, r := range reports {
+			ad := adapterFor(o.Verif, r.Name)
+			if ad == "" {
+				continue
+			}
+			b, _ := os.ReadFile(ad)
+			sum := fmt.Sprintf("%x", sha256.Sum256(b))
+			if seenAd[sum] {
+				continue
+			}
+			seenAd[sum] = true
+			ok, out := runAdapterRaw(o.Verif, o.Root, r.Name, r.Name+"/bounded-crosscheck", "", "thorough", map[string]string{})
+			ev.BoundedRuns = append(ev.BoundedRuns, fmt.Sprintf("bounded: scenario list of replay/adapters/%s on the real code (%s)", filepath.Base(ad), map[bool]string{true: "FAILED", false: "no failure"}[ok]))
+			if ok {
+				violations++
+				ob := &Obligation{Name: r.Name + "/bounded-crosscheck", Func: r.Name, Kind: "bounded", Label: "bounded-crosscheck"}
+				rp := writeReplay(o, ob.Name, "the function's scenario list (oracle from the property text) fails on this tree although every deductive obligation was discharged: the contract or an assumption is wrong\n"+out, ob)
+				lines = append(lines, fmt.Sprintf("VIOLATION property=%s replay=%s obligation=%s reason=%q", o.Prop, rp, ob.Name, "bounded scenario list fails on the real code"))
+			}
+		}
+	}
 	ev.Violations = violations
 	ev.Wall = time.Since(start).Seconds()
 	if err := ev.write(o.Evidence); err != nil {
@@ -438,6 +468,7 @@ func runCheck(o CheckOpts) (code int) {
 
 type Evidence struct {
 	opts             CheckOpts
+	BoundedRuns      []string
 	Functions        []string
 	Obligations      int
 	Discharged       int
@@ -503,7 +534,7 @@ func (ev *Evidence) write(path string) error {
 		"untagged_obligations_not_counted": ev.OtherObligations,
 		"known_findings":          ev.KnownFindings,
 		"not_decided":             extra.NotDecided,
-		"bounded":                 extra.Bounded,
+		"bounded":                 append(append([]string{}, extra.Bounded...), ev.BoundedRuns...),
 		"notes":                   ev.Notes,
 	}
 	out := map[string]any{
